@@ -141,3 +141,58 @@ Proof.
   cbn [nd upd exc outs]; cbn; rewrite L1, L2, L7, fired_app, fired_sub_out, H2, H3, H4, H5, H6, H8;
   rewrite C1, C2, C3, C4, C6; cbn; auto 12.
 Qed.
+
+(* ------------------------------------------------------------------ *)
+(* apply_list                                                           *)
+(* ------------------------------------------------------------------ *)
+
+(* the Fired outputs of executing es from user state h with subscriber table wc *)
+Fixpoint fired_list (h : list N) (wc : list (N * list (N * cbref))) (es : list entry) : list (N * N * N) :=
+  match es with
+  | [] => []
+  | en :: r =>
+    flat_map (sub_fired en (result_of h (ecmd en))) (subs_of (eidx en) wc)
+    ++ fired_list (h ++ cmd_effect (ecmd en)) (adel (eidx en) wc) r
+  end.
+
+Definition pop_all (es : list entry) (wc : list (N * list (N * cbref))) :=
+  fold_left (fun wc e => adel (eidx e) wc) es wc.
+
+(* the entries whose subscriber lists the loop pops: the executed ones and the blocker *)
+Definition touched (sv : N) (es : list entry) : list entry :=
+  runnable sv es ++ match blocker sv es with Some b => [b] | None => [] end.
+
+Lemma apply_list_cons : forall en r s,
+  apply_list (en :: r) s =
+  if snd (apply_one en s) then apply_list r (fst (apply_one en s)) else fst (apply_one en s).
+Proof. intros. cbn [apply_list]. destruct (apply_one en s) as [s1 go]. reflexivity. Qed.
+
+Theorem apply_list_spec : forall es s,
+  let sv := self_ver (nd s) in
+  let run := runnable sv es in
+  let s' := apply_list es s in
+  hist (nd s') = hist (nd s) ++ replay run /\
+  enabled_ver (nd s') = ver_after (enabled_ver (nd s)) run /\
+  applied (nd s') = applied (nd s) + N.of_nat (length run) /\
+  self_ver (nd s') = sv /\
+  wait_commit (nd s') = pop_all (touched sv es) (wait_commit (nd s)) /\
+  queue (nd s') = queue (nd s) /\ wait_reply (nd s') = wait_reply (nd s) /\
+  local_ctr (nd s') = local_ctr (nd s) /\
+  exc s' = exc s /\
+  fired (outs s') = fired (outs s) ++ fired_list (hist (nd s)) (wait_commit (nd s)) run.
+Proof.
+  induction es as [|en r IH]; intros s; cbn zeta.
+  - cbn. rewrite !app_nil_r, N.add_0_r. auto 12.
+  - rewrite apply_list_cons, apply_one_go. unfold touched. cbn [runnable blocker].
+    destruct (needs_ver (self_ver (nd s)) (ecmd en)) eqn:B; cbn [negb].
+    + rewrite apply_one_blocked by auto. cbn. rewrite !app_nil_r, N.add_0_r. auto 12.
+    + destruct (apply_one_ok en s B) as (_ & A1 & A2 & A3 & A4 & A5 & A6 & A7 & A8 & A9 & A10).
+      specialize (IH (fst (apply_one en s))). cbn zeta in IH.
+      destruct IH as (I1 & I2 & I3 & I4 & I5 & I6 & I7 & I8 & I9 & I10).
+      rewrite A4 in *. unfold touched in I5.
+      rewrite I1, I2, I3, I4, I5, I6, I7, I8, I9, I10, A1, A2, A3, A5, A6, A7, A8, A9, A10.
+      cbn [length replay flat_map fired_list app pop_all fold_left].
+      fold (replay (runnable (self_ver (nd s)) r)).
+      rewrite <- !app_assoc.
+      repeat split; auto; lia.
+Qed.
